@@ -167,7 +167,7 @@ theorem Obj.defaultCurve_shape (b : Basis K) (rational : Bool) :
 control points `(ξ_j, 0)`; it evaluates to `(u, 0)`. -/
 theorem Obj.default_curve_identity (b : Basis K) (hv : b.Valid) (hper : b.periodic = -1)
     (hp : 2 ≤ b.order) {tol : K} (htol : 0 < tol) {us : List K}
-    (hus : ∀ u ∈ us, b.ExactAt tol u ∧ b.start ≤ u ∧ u ≤ b.stop) :
+    (hus : ∀ u ∈ us, b.ExactAt tol u ∧ b.start ≤ u ∧ u ≤ b.stop) (hne : us ≠ []) :
     ∃ o res, Obj.default #[b] false = .ok o ∧
       o.bases = #[b] ∧ o.rational = false ∧ o.cps.shape = [b.numFunctions, 2] ∧
       (∀ j, j < b.numFunctions →
@@ -182,6 +182,7 @@ theorem Obj.default_curve_identity (b : Basis K) (hv : b.Valid) (hper : b.period
   have hbases : (Obj.defaultOf #[b] [b.grevArr] false).bases = #[b] := rfl
   have hrat : (Obj.defaultOf #[b] [b.grevArr] false).rational = false := rfl
   obtain ⟨res, h1, h2, -, h4⟩ := Obj.evaluate1_spec_nonrational hbases hv hshape hrat htol hadm
+    (fun _ => hne)
   refine ⟨_, res, Obj.default_eq _ _ _ (mapM_greville_one b hp), hbases, hrat, hshape,
     fun j hj => Obj.defaultCurve_false_get b hj, h1, h2, ?_⟩
   intro i hi
@@ -200,7 +201,7 @@ theorem Obj.default_curve_identity (b : Basis K) (hv : b.Valid) (hper : b.period
 /-- Default rational curve: control points `(ξ_j, 0, 1)`; it evaluates to `(u, 0)`. -/
 theorem Obj.default_curve_identity_rational (b : Basis K) (hv : b.Valid) (hper : b.periodic = -1)
     (hp : 2 ≤ b.order) {tol : K} (htol : 0 < tol) {us : List K}
-    (hus : ∀ u ∈ us, b.ExactAt tol u ∧ b.start ≤ u ∧ u ≤ b.stop) :
+    (hus : ∀ u ∈ us, b.ExactAt tol u ∧ b.start ≤ u ∧ u ≤ b.stop) (hne : us ≠ []) :
     ∃ o res, Obj.default #[b] true = .ok o ∧
       o.bases = #[b] ∧ o.rational = true ∧ o.cps.shape = [b.numFunctions, 3] ∧
       (∀ j, j < b.numFunctions →
@@ -218,7 +219,7 @@ theorem Obj.default_curve_identity_rational (b : Basis K) (hv : b.Valid) (hper :
     (fun j hj => by
       have := (Obj.defaultCurve_true_get b hj).2.2
       rw [show j * (2 + 1) + 2 = j * 3 + 2 from rfl, this]
-      exact zero_lt_one) htol hadm
+      exact zero_lt_one) htol hadm (fun _ => hne)
   refine ⟨_, res, Obj.default_eq _ _ _ (mapM_greville_one b hp), hbases, hrat, hshape,
     fun j hj => Obj.defaultCurve_true_get b hj, h1, h2, ?_⟩
   intro i hi
@@ -301,7 +302,8 @@ theorem Obj.default_surface_identity (b1 b2 : Basis K) (hv1 : b1.Valid) (hv2 : b
     (hper1 : b1.periodic = -1) (hper2 : b2.periodic = -1) (hp1 : 2 ≤ b1.order)
     (hp2 : 2 ≤ b2.order) {tol : K} (htol : 0 < tol) {us vs : List K}
     (hus : ∀ u ∈ us, b1.ExactAt tol u ∧ b1.start ≤ u ∧ u ≤ b1.stop)
-    (hvs : ∀ v ∈ vs, b2.ExactAt tol v ∧ b2.start ≤ v ∧ v ≤ b2.stop) :
+    (hvs : ∀ v ∈ vs, b2.ExactAt tol v ∧ b2.start ≤ v ∧ v ≤ b2.stop)
+    (hne1 : us ≠ []) (hne2 : vs ≠ []) :
     ∃ o res, Obj.default #[b1, b2] false = .ok o ∧
       o.bases = #[b1, b2] ∧ o.rational = false ∧
       o.cps.shape = [b1.numFunctions, b2.numFunctions, 2] ∧
@@ -323,6 +325,7 @@ theorem Obj.default_surface_identity (b1 b2 : Basis K) (hv1 : b1.Valid) (hv2 : b
   have hrat : (Obj.defaultOf #[b1, b2] [b1.grevArr, b2.grevArr] false).rational = false := rfl
   obtain ⟨res, h1, h2, -, h4⟩ :=
     Obj.evaluate2_spec_nonrational hbases hv1 hv2 hshape hrat htol hadm1 hadm2
+      (fun _ => hne1) (fun _ => hne2)
   refine ⟨_, res, Obj.default_eq _ _ _ (mapM_greville_two b1 b2 hp1 hp2), hbases, hrat, hshape,
     fun j1 j2 a b => Obj.defaultSurface_get b1 b2 a b, h1, h2, ?_⟩
   intro i1 i2 hi1 hi2
